@@ -6,7 +6,8 @@ import z3
 from pyvc.sym import SInt, ctx, lift
 from pyvc.nodes import Contract, is_abs, band, bor, bnot, implies, fall
 from pyvc.engine import Harness
-from .common import (new_base, new_family, child_invariants, env_total_in_bounds, mk_atleast, cur_env, AbsEnv, Bo)
+from .common import (new_base, new_family, child_invariants, env_total_in_bounds, mk_atleast, cur_env, AbsEnv, Bo,
+                     concretise_children, build_children, set_native_env, _mv)
 from .specs import truth, solver_safe, is_variable, is_variable_t
 
 
@@ -67,6 +68,45 @@ class NegateH(Harness):
         out = [(n, e(st["self"], res)) for n, e in NEGATE_ENSURES]
         out.append(("inv.sign", bor(res.sign == 1, res.sign == -1)))
         return out
+
+
+    def concretise(self, case, k, model, c, st):
+        kids = concretise_children(model, st["fam"], k, c.env, extra_bool=("safe", "boolleaves"))
+        return {"value": _mv(model, st["self"].value.t), "sign": case["sign"], "generated_id": case["generated_id"],
+                "children": kids}
+
+    @staticmethod
+    def build(w):
+        import puan.logic.plog as pg
+        kids, env = build_children(w["children"])
+        node = pg.AtLeast(w["value"], kids, variable=None if w["generated_id"] else "A", sign=w["sign"])
+        return node, env
+
+    def replay(self, w):
+        """run the real negate() on the concretised witness; evaluate the contract predicates natively and the
+        property as stated (through the real evaluate())"""
+        node, env = self.build(w)
+        set_native_env(env)
+        neg = node.negate()
+        violated, detail = [], {}
+        for name, pred in NEGATE_ENSURES:
+            ok = bool(pred(node, neg))
+            detail[name] = ok
+            if not ok:
+                violated.append(name)
+        a = self.build(w)[0].evaluate(dict(env))
+        b = self.build(w)[0].negate().evaluate(dict(env))
+        detail["evaluate(original)"] = list(a.as_tuple())
+        detail["evaluate(negated)"] = list(b.as_tuple())
+        detail["model"] = self.build(w)[0].to_text()
+        detail["negated_model"] = neg.to_text()
+        detail["interpretation"] = env
+        if "post.complement" in violated and not (a.constant is not None and b.constant is not None
+                                                 and a.constant + b.constant != 1):
+            detail["note"] = "spec-level complement failed but real evaluate() does not show it"
+            violated.remove("post.complement")
+            violated.append("MISMATCH:post.complement")
+        return {"violated": violated, "detail": detail}
 
 
 HARNESSES = [NegateH()]
